@@ -285,6 +285,16 @@ def c_opt_unwrap_or_default(m, st, f, a):
     raise Inconclusive('unwrap_or_default of ' + t)
 
 
+@contract(r'^(std::result::|core::result::)?Result::<.*>::unwrap_or_default$')
+def c_res_unwrap_or_default(m, st, f, a):
+    r = a[0]
+    if disc_of(m, st, r) == 0: return payload0(r, 0)
+    t = split_top(re.search(r'Result::<(.*)>::unwrap_or_default$', f).group(1))[0]
+    d = default_of(m, t)
+    if d is None: raise Inconclusive('unwrap_or_default of ' + t)
+    return d
+
+
 @contract(r'^(std::option::|core::option::)?Option::<.*>::take$')
 def c_opt_take(m, st, f, a):
     old = deref(a[0]); store(a[0], none()); return old
@@ -930,6 +940,16 @@ def c_iter_adapt(m, st, f, a):
         return Iter(x + y) if op == 'chain' else Iter([Agg([p, q]) for p, q in zip(x, y)])
     arg = a[1] if len(a) > 1 else None
     return Iter(base.items, base.pos, base.ops + ((op, arg),), base.count, base.src)
+
+
+@contract(r'^(std::iter::)?Peekable::<.*>::peek$', 6)
+def c_peekable_peek(m, st, f, a):
+    """Peekable::peek on an iterator without pending closure adaptors: a reference to the next item, nothing consumed"""
+    it = sv(a[0])
+    if not isinstance(it, Iter) or it.src is not None or any(op not in ('peekable',) for op, _ in it.ops):
+        raise Inconclusive('peek on %r' % (it,))
+    if it.pos >= len(it.items): return none()
+    return some(Ref(Cell(it.items[it.pos])))
 
 
 class IterDriver(Native):
